@@ -28,6 +28,18 @@ AREAS = {
 _cache = {}
 
 
+_summ = {}
+
+
+def crate_summaries(ctx, crate):
+    """effect summaries of the crate's methods (lib/effects.py), per configuration"""
+    from lib import effects
+    k = (ctx.config, crate)
+    if k not in _summ:
+        _summ[k] = effects.summaries(ctx.ast.crates[crate])
+    return _summ[k]
+
+
 def area_current(ctx, area):
     ck = (ctx.config, area)
     if ck in _cache:
@@ -65,7 +77,8 @@ def nf_rule(ctx, rule, area, only=None, floor=None):
     n = nf.compare_area(
         ref, cur,
         lambda key, msg: ctx.ob(rule, "nf/%s/%s" % (area, key), True, msg),
-        lambda key, kind, msg: ctx.ob(rule, "nf/%s/%s/%s" % (area, key, kind), False, msg, "%s %s" % (AREAS[area][0], key)))
+        lambda key, kind, msg: ctx.ob(rule, "nf/%s/%s/%s" % (area, key, kind), False, msg, "%s %s" % (AREAS[area][0], key)),
+        crate_summaries(ctx, AREAS[area][0]))
     if floor is not None:
         ctx.floor(rule, "functions/" + area, len(cur), floor)
     ctx.analysed["nf_functions_" + area] = len(cur)
